@@ -240,5 +240,117 @@ pub proof fn lemma_returned_request_functional<G>(parts: Parts, body: Bytes, opt
         lemma_canon_query_unique(cr1.qview(), q1, q2);
     }
 }
+/// the verdict of rules 5-9 fixes the kind (the case split is exhaustive), and sees the canonical request through its views only
+pub proof fn lemma_verdict59_kind(c1: CanonicalRequest, c2: CanonicalRequest, always: Seq<Seq<u8>>, ifreq: Seq<Seq<u8>>, prefixes: Seq<Seq<u8>>, e1: SignatureError, e2: SignatureError)
+    requires same_views(c1, c2), !c1.acceptable_authenticator(always, ifreq, prefixes),
+        c1.rules_5_to_9_verdict(always, ifreq, prefixes, e1), c2.rules_5_to_9_verdict(always, ifreq, prefixes, e2)
+    ensures kind(e1) == kind(e2)
+{
+    lemma_views_acceptable(c1, c2, always, ifreq, prefixes);
+    if c1.acceptable_params(always, ifreq, prefixes) {
+        let p = choose|p: AuthParams| #[trigger] c1.carrier_selected(p) && requirements_met(p.signed(), c1.hview(), always, ifreq, prefixes);
+        c1.lemma_selected_carrier_fine(p);
+    }
+}
+/// the verdict of rules 10-13 fixes the kind
+pub proof fn lemma_pre_verdict_kind(a1: SigV4Authenticator, a2: SigV4Authenticator, region: Seq<u8>, service: Seq<u8>, now: DateTime<Utc>, d: Duration, e1: SignatureError, e2: SignatureError)
+    requires same_auth(a1, a2), !a1.pre_ok(region, service, now, d), a1.pre_verdict(region, service, now, d, e1), a2.pre_verdict(region, service, now, d, e2)
+    ensures kind(e1) == kind(e2)
+{}
+pub proof fn lemma_kind_59_59(parts: Parts, body: Bytes, options: SignatureOptions, always: Seq<Seq<u8>>, ifreq: Seq<Seq<u8>>, prefixes: Seq<Seq<u8>>,
+    c1: CanonicalRequest, p1: Parts, b1: Bytes, e1: SignatureError, c2: CanonicalRequest, p2: Parts, b2: Bytes, e2: SignatureError)
+    requires refused_by_rules_5_to_9(parts, body, options, always, ifreq, prefixes, c1, p1, b1, e1), refused_by_rules_5_to_9(parts, body, options, always, ifreq, prefixes, c2, p2, b2, e2)
+    ensures kind(e1) == kind(e2)
+{
+    lemma_frp_functional(parts, body, options, c1, p1, b1, c2, p2, b2);
+    lemma_verdict59_kind(c1, c2, always, ifreq, prefixes, e1, e2);
+}
+pub proof fn lemma_kind_10_10<G>(parts: Parts, body: Bytes, options: SignatureOptions, always: Seq<Seq<u8>>, ifreq: Seq<Seq<u8>>, prefixes: Seq<Seq<u8>>,
+    region: &str, service: &str, now: DateTime<Utc>, g0: G,
+    c1: CanonicalRequest, p1: Parts, b1: Bytes, a1: SigV4Authenticator, d1: Duration, e1: SignatureError,
+    c2: CanonicalRequest, p2: Parts, b2: Bytes, a2: SigV4Authenticator, d2: Duration, e2: SignatureError)
+    requires
+        refused_after_rule_9::<G>(parts, body, options, always, ifreq, prefixes, region, service, now, g0, c1, p1, b1, a1, d1, e1),
+        refused_after_rule_9::<G>(parts, body, options, always, ifreq, prefixes, region, service, now, g0, c2, p2, b2, a2, d2, e2),
+    ensures kind(e1) == kind(e2)
+{
+    lemma_frp_functional(parts, body, options, c1, p1, b1, c2, p2, b2);
+    lemma_authenticator_functional(c1, c2, always, ifreq, prefixes, a1, a2);
+    assert(d1 == d2);
+    if !a1.pre_ok(region.spec_bytes(), service.spec_bytes(), now, d1) {
+        lemma_pre_verdict_kind(a1, a2, region.spec_bytes(), service.spec_bytes(), now, d1, e1, e2);
+    } else {
+        let r1 = choose|req: GetSigningKeyRequest| #[trigger] a1.is_provider_request(region@, service@, req) && match provider_answer::<G, GetSigningKeyRequest, GetSigningKeyResponse, BoxError>(g0, req) {
+            Err(pe) => e1 == wrap_box_error(pe), Ok(resp) => a1.sig() != a1.expected_sig(resp.s_key()) && e1 is SignatureDoesNotMatch };
+        let r2 = choose|req: GetSigningKeyRequest| #[trigger] a2.is_provider_request(region@, service@, req) && match provider_answer::<G, GetSigningKeyRequest, GetSigningKeyResponse, BoxError>(g0, req) {
+            Err(pe) => e2 == wrap_box_error(pe), Ok(resp) => a2.sig() != a2.expected_sig(resp.s_key()) && e2 is SignatureDoesNotMatch };
+        lemma_provider_request_functional(a1, a2, region@, service@, r1, r2);
+    }
+}
+/// a refusal justified by rules 5-9 and one justified by a later rule cannot both exist for one input
+pub proof fn lemma_kind_59_10<G>(parts: Parts, body: Bytes, options: SignatureOptions, always: Seq<Seq<u8>>, ifreq: Seq<Seq<u8>>, prefixes: Seq<Seq<u8>>,
+    region: &str, service: &str, now: DateTime<Utc>, g0: G,
+    c1: CanonicalRequest, p1: Parts, b1: Bytes, e1: SignatureError,
+    c2: CanonicalRequest, p2: Parts, b2: Bytes, a2: SigV4Authenticator, d2: Duration, e2: SignatureError)
+    requires
+        refused_by_rules_5_to_9(parts, body, options, always, ifreq, prefixes, c1, p1, b1, e1),
+        refused_after_rule_9::<G>(parts, body, options, always, ifreq, prefixes, region, service, now, g0, c2, p2, b2, a2, d2, e2),
+    ensures false
+{
+    lemma_frp_functional(parts, body, options, c1, p1, b1, c2, p2, b2);
+    lemma_views_acceptable(c1, c2, always, ifreq, prefixes);
+    lemma_auth_ok_acceptable(c2, always, ifreq, prefixes, a2);
+}
+pub open spec fn refused_early(parts: Parts, body: Bytes, options: SignatureOptions, e: SignatureError) -> bool {
+    ||| (canon_path(parts.uri.path, options.s3) is None && e is InvalidURIPath)
+    ||| (canon_path(parts.uri.path, options.s3) is Some && parse_query(url_query(parts)) is None && e is MalformedQueryString)
+    ||| (canon_path(parts.uri.path, options.s3) is Some && parse_query(url_query(parts)) is Some && !frp_accepts(parts, body, options) && fold_verdict(parts, body, e))
+}
+/// C18 / C13: two refusals of the same input under the same provider have the same kind (hence the same code and status)
+pub proof fn lemma_refusal_kind_functional<G>(parts: Parts, body: Bytes, options: SignatureOptions, always: Seq<Seq<u8>>, ifreq: Seq<Seq<u8>>, prefixes: Seq<Seq<u8>>,
+    region: &str, service: &str, now: DateTime<Utc>, g0: G, e1: SignatureError, e2: SignatureError)
+    requires
+        refusal_follows_precedence::<G>(parts, body, options, always, ifreq, prefixes, region, service, now, g0, e1),
+        refusal_follows_precedence::<G>(parts, body, options, always, ifreq, prefixes, region, service, now, g0, e2),
+    ensures kind(e1) == kind(e2), //# C18 C13 name=refusal_kind_is_a_function_of_the_input
+{
+    let x1 = exists|cr: CanonicalRequest, parts2: Parts, body2: Bytes| #[trigger] refused_by_rules_5_to_9(parts, body, options, always, ifreq, prefixes, cr, parts2, body2, e1);
+    let x2 = exists|cr: CanonicalRequest, parts2: Parts, body2: Bytes| #[trigger] refused_by_rules_5_to_9(parts, body, options, always, ifreq, prefixes, cr, parts2, body2, e2);
+    let y1 = exists|cr: CanonicalRequest, parts2: Parts, body2: Bytes, a: SigV4Authenticator, d: Duration|
+        #[trigger] refused_after_rule_9::<G>(parts, body, options, always, ifreq, prefixes, region, service, now, g0, cr, parts2, body2, a, d, e1);
+    let y2 = exists|cr: CanonicalRequest, parts2: Parts, body2: Bytes, a: SigV4Authenticator, d: Duration|
+        #[trigger] refused_after_rule_9::<G>(parts, body, options, always, ifreq, prefixes, region, service, now, g0, cr, parts2, body2, a, d, e2);
+    assert(refused_early(parts, body, options, e1) || x1 || y1);
+    assert(refused_early(parts, body, options, e2) || x2 || y2);
+    if x1 {
+        let (c1, p1, b1) = choose|cr: CanonicalRequest, parts2: Parts, body2: Bytes| #[trigger] refused_by_rules_5_to_9(parts, body, options, always, ifreq, prefixes, cr, parts2, body2, e1);
+        lemma_frp_ok_accepts(parts, body, options, c1, p1, b1);
+        if x2 {
+            let (c2, p2, b2) = choose|cr: CanonicalRequest, parts2: Parts, body2: Bytes| #[trigger] refused_by_rules_5_to_9(parts, body, options, always, ifreq, prefixes, cr, parts2, body2, e2);
+            lemma_kind_59_59(parts, body, options, always, ifreq, prefixes, c1, p1, b1, e1, c2, p2, b2, e2);
+        } else if y2 {
+            let (c2, p2, b2, a2, d2) = choose|cr: CanonicalRequest, parts2: Parts, body2: Bytes, a: SigV4Authenticator, d: Duration| #[trigger] refused_after_rule_9::<G>(parts, body, options, always, ifreq, prefixes, region, service, now, g0, cr, parts2, body2, a, d, e2);
+            lemma_kind_59_10::<G>(parts, body, options, always, ifreq, prefixes, region, service, now, g0, c1, p1, b1, e1, c2, p2, b2, a2, d2, e2);
+        }
+    } else if y1 {
+        let (c1, p1, b1, a1, d1) = choose|cr: CanonicalRequest, parts2: Parts, body2: Bytes, a: SigV4Authenticator, d: Duration| #[trigger] refused_after_rule_9::<G>(parts, body, options, always, ifreq, prefixes, region, service, now, g0, cr, parts2, body2, a, d, e1);
+        lemma_frp_ok_accepts(parts, body, options, c1, p1, b1);
+        if x2 {
+            let (c2, p2, b2) = choose|cr: CanonicalRequest, parts2: Parts, body2: Bytes| #[trigger] refused_by_rules_5_to_9(parts, body, options, always, ifreq, prefixes, cr, parts2, body2, e2);
+            lemma_kind_59_10::<G>(parts, body, options, always, ifreq, prefixes, region, service, now, g0, c2, p2, b2, e2, c1, p1, b1, a1, d1, e1);
+        } else if y2 {
+            let (c2, p2, b2, a2, d2) = choose|cr: CanonicalRequest, parts2: Parts, body2: Bytes, a: SigV4Authenticator, d: Duration| #[trigger] refused_after_rule_9::<G>(parts, body, options, always, ifreq, prefixes, region, service, now, g0, cr, parts2, body2, a, d, e2);
+            lemma_kind_10_10::<G>(parts, body, options, always, ifreq, prefixes, region, service, now, g0, c1, p1, b1, a1, d1, e1, c2, p2, b2, a2, d2, e2);
+        }
+    } else {
+        if x2 {
+            let (c2, p2, b2) = choose|cr: CanonicalRequest, parts2: Parts, body2: Bytes| #[trigger] refused_by_rules_5_to_9(parts, body, options, always, ifreq, prefixes, cr, parts2, body2, e2);
+            lemma_frp_ok_accepts(parts, body, options, c2, p2, b2);
+        } else if y2 {
+            let (c2, p2, b2, a2, d2) = choose|cr: CanonicalRequest, parts2: Parts, body2: Bytes, a: SigV4Authenticator, d: Duration| #[trigger] refused_after_rule_9::<G>(parts, body, options, always, ifreq, prefixes, region, service, now, g0, cr, parts2, body2, a, d, e2);
+            lemma_frp_ok_accepts(parts, body, options, c2, p2, b2);
+        }
+    }
+}
 } // mod det_m
 pub use det_m::*;
